@@ -960,3 +960,102 @@ def narrowarg(facts: CppFacts):
                 res.samples.append(f"{cls}::{meth}: templated on the argument type")
     res.analysed = ["runtime/cpp/emboss_prelude.h"]
     return res
+
+
+def lowestdigit(facts: CppFacts):
+    """R-LOWESTDIGIT (C06): the text writer cannot negate the minimum of a signed type, so it peels off the lowest digit
+    with a special sequence of statements.  That sequence (declarations, assignments, `++x`, one-level `if`) is
+    followed with the typed folder for value = lowest() of int8/16/32/64 and base 2, 10, 16: afterwards
+    `value * base + digit` must be 2^(w-1), `0 <= digit < base`, and no step may overflow."""
+    from .. import cppexpr as X
+    res = RuleResult("R-LOWESTDIGIT")
+    TU = "runtime/cpp/emboss_text_util.h"
+    wr = [f for f in facts.functions if f.name == "WriteIntegerToTextStream"]
+    if not wr:
+        raise AnalysisError("WriteIntegerToTextStream not found")
+    w = _CM.sub("", wr[0].body)
+    m = re.search(r"if\s*\(\s*value\s*==\s*[^;{]*?lowest\s*\(\s*\)\s*\)", w)
+    if not m:
+        raise AnalysisError("WriteIntegerToTextStream: the lowest() special case was not found")
+    b0, e0 = _block_after(w, m.end())
+    block = w[b0 + 1:e0 - 1]
+
+    def split_statements(text):
+        out, depth, cur = [], 0, ""
+        i = 0
+        while i < len(text):
+            c = text[i]
+            cur += c
+            if c in "({":
+                depth += 1
+            elif c in ")}":
+                depth -= 1
+                if c == "}" and depth == 0:
+                    out.append(cur.strip())
+                    cur = ""
+            elif c == ";" and depth == 0:
+                out.append(cur.strip())
+                cur = ""
+            i += 1
+        if cur.strip():
+            out.append(cur.strip())
+        return out
+
+    def run(stmts, env, tnames):
+        for st in stmts:
+            st = st.strip().rstrip(";").strip()
+            if not st:
+                continue
+            mm = re.fullmatch(r"if\s*\((.*?)\)\s*\{(.*)\}", st, re.S)
+            if mm:
+                if X.evaluate(X.parse(mm.group(1), type_names=tnames), env).v:
+                    run(split_statements(mm.group(2)), env, tnames)
+                continue
+            mm = re.fullmatch(r"(?:\+\+\s*(\w+)|(\w+)\s*\+\+)", st)
+            if mm:
+                n = mm.group(1) or mm.group(2)
+                if n in env.values:
+                    v = env.values[n]
+                    r = v.v + 1
+                    if v.t.signed and r > v.t.hi:
+                        raise X.UB(f"++{n} overflows")
+                    env.values[n] = X.V(v.t, v.t.wrap(r))
+                continue
+            mm = re.fullmatch(r"(?:(auto|int|unsigned|IntegralType|decltype\s*\(\s*value\s*\))\s+)?(\w+)\s*=\s*(.*)", st, re.S)
+            if mm:
+                decl, name, expr = mm.groups()
+                v = X.evaluate(X.parse(expr, type_names=tnames), env)
+                if decl is None and name in env.values:
+                    v = X.convert(v, env.values[name].t)       # assignment converts to the variable's type
+                elif decl and decl not in ("auto",):
+                    v = X.convert(v, env.type("IntegralType") if "decltype" in decl or decl == "IntegralType" else X.BUILTIN_TYPES[decl])
+                env.values[name] = v
+                continue
+            if re.match(r"buffer_char\s*\(", st):
+                continue
+            raise X.Unsupported(f"statement `{st[:60]}`")
+
+    stmts = split_statements(block)
+    for bits in (8, 16, 32, 64):
+        t = X.T(True, bits)
+        for base in (2, 10, 16):
+            res.instances += 1
+            env = X.Env({"value": X.V(t, t.lo), "base": X.V(X.T(False, 8), base), "digit_count": X.V(X.INT, 0)}, {"IntegralType": t}, {})
+            try:
+                run(stmts, env, {"IntegralType"})
+                digit, value = env.values.get("digit"), env.values.get("value")
+                if digit is None:
+                    raise X.Unsupported("no `digit` computed")
+                ok = value.v * base + digit.v == (1 << (bits - 1)) and 0 <= digit.v < base
+                detail = f"value = {value.v}, digit = {digit.v}"
+            except X.UB as u:
+                ok, detail = False, f"undefined behaviour: {u}"
+            except X.Unsupported as u:
+                raise AnalysisError(f"WriteIntegerToTextStream lowest() case: {u}")
+            if not ok:
+                res.add(f"{TU}|WriteIntegerToTextStream|lowest|{bits}|{base}", f"writing the minimum of int{bits}_t in base {base}: after the "
+                        f"special case {detail}, but value * {base} + digit must be 2^{bits - 1} with 0 <= digit < {base}: the text "
+                        "shows another number than the field holds", TU, wr[0].line, "WriteIntegerToTextStream")
+    res.samples = ["lowest() case followed for int8/16/32/64 x base 2/10/16"]
+    res.analysed = [TU]
+    return res
